@@ -89,8 +89,15 @@ def gen(rng, tier):
         a = usable[0]
         rest = usable[1:]
         R1 = [[a, small_fn(rng, rest, 2)]]
-        Rs = [R1]
         replaced = [a]
+        # a SIMULTANEOUS map with 2-3 entries (each replacement over the variables that remain)
+        if len(rest) >= 3 and rng.random() < 0.4:
+            extra_keys = rest[:rng.randint(1, min(2, len(rest) - 2))]
+            rest = rest[len(extra_keys):]
+            R1 = [[a, small_fn(rng, rest, 2)]] + [[k2, small_fn(rng, rest, 2)] for k2 in extra_keys]
+            rng.shuffle(R1)
+            replaced += extra_keys
+        Rs = [R1]
         if len(rest) >= 2 and rng.random() < 0.5:
             b = rest[0]
             rest2 = rest[1:]
